@@ -97,6 +97,7 @@ type World struct {
 	Forgot    bool             // memory was reduced by a small-depth prune or a reload
 	MinDepth  int              // smallest prune depth applied so far (0: never pruned)
 	Removed   []string         // labels removed from the accepted set by marking (with descendants)
+	MarkedLabels []string      // labels currently marked
 	Anomalies []string         // model-level anomalies (accepted header with unaccepted parent, ...)
 
 	SavedWork *big.Int // cumulative work of the reported tip at the last completed Save (nil: none)
@@ -221,6 +222,8 @@ func (w *World) Apply(op Op) *Step {
 		u := Get(op.L)
 		st.Known = w.Tree.Get(RH(u.Hash)) != nil
 		hc := u.Header.Copy()
+		hhBefore := -1
+		Safe(func() error { hhBefore = w.Repo.HashHeight(u.Hash); return nil })
 		if op.K == "subw" { // proof-of-work checking on for this one submission
 			w.Repo.EnableDifficulty()
 		}
@@ -237,10 +240,11 @@ func (w *World) Apply(op Op) *Step {
 		if p == "" {
 			accepted := err == nil
 			if !accepted {
-				// An error return must not leave the header known: if it does, it counts as accepted.
+				// An error return must not leave the header known: if the submission made it known, it
+				// counts as accepted (C01: an error return never leaves a heavier accepted chain unreported).
 				hh := -1
 				Safe(func() error { hh = w.Repo.HashHeight(u.Hash); return nil })
-				if hh != -1 && !st.Known {
+				if hh != -1 && hhBefore == -1 && !st.Known {
 					accepted = true
 				}
 			}
@@ -315,6 +319,9 @@ func (w *World) Apply(op Op) *Step {
 		}
 		if !w.isMarked(h) {
 			w.Marked = append(w.Marked, h)
+			if op.K == "mark" {
+				w.MarkedLabels = append(w.MarkedLabels, op.L)
+			}
 		}
 		for _, n := range w.Tree.Sorted() {
 			if n.HasAncestorOrSelf(RH(h)) {
@@ -332,6 +339,12 @@ func (w *World) Apply(op Op) *Step {
 		for i, m := range w.Marked {
 			if m == h {
 				w.Marked = append(append([]bitcoin.Hash32{}, w.Marked[:i]...), w.Marked[i+1:]...)
+				break
+			}
+		}
+		for i, l := range w.MarkedLabels {
+			if l == op.L {
+				w.MarkedLabels = append(append([]string{}, w.MarkedLabels[:i]...), w.MarkedLabels[i+1:]...)
 				break
 			}
 		}
@@ -365,6 +378,16 @@ func (w *World) Apply(op Op) *Step {
 	st.PostTip = w.tipHash()
 	w.Steps = append(w.Steps, st)
 	return &w.Steps[len(w.Steps)-1]
+}
+
+// IsMarkedLabel reports whether the label is currently marked invalid.
+func (w *World) IsMarkedLabel(l string) bool {
+	for _, m := range w.MarkedLabels {
+		if m == l {
+			return true
+		}
+	}
+	return false
 }
 
 func (w *World) notePrune(d int) {
